@@ -153,6 +153,9 @@ func c13Run(r *core.Run) {
 	case "cached":
 		o.BuildOut(r, outKinds[t.Int(3, "c13.warmkind")], true, false)
 		neighbourSigns()
+		if !shared && t.Int(2, "c13.rotate") == 1 {
+			o.RotateFieldSigningStore(r)
+		}
 	case "restart":
 		o.BuildOut(r, kind, true, false)
 		if !o.Build() {
